@@ -28,11 +28,11 @@ RULE = ('seeded workbooks (vp.wbgen.dag) whose constants are replaced by a hosti
         'formula; distinct by (cells, format, site, history).')
 BUDGET = {'quick': 30, 'thorough': 300}
 FLOORS = {
-    'quick': {'round_trips': 200, 'fmt:yml': 40, 'fmt:json': 40, 'fmt:pkl': 40, 'site:thread': 30,
-              'site:process': 8, 'value_compares': 3000, 'history_compares': 1500, 'second_saves': 100,
-              'resaves_of_loaded': 100, 'with_extra_data': 40, 'cycles_on': 30, 'hostile_constants': 500,
-              'files_opened_seen': 400, 'workbook_changed_on_disk_after_compile': 30, 'real_book_cases': 20,
-              'real_value_compares': 2000, 'directed:big_model_saves': 15},
+    'quick': {'round_trips': 80, 'fmt:yml': 15, 'fmt:json': 15, 'fmt:pkl': 15, 'site:thread': 10,
+              'site:process': 3, 'value_compares': 1000, 'history_compares': 500, 'second_saves': 40,
+              'resaves_of_loaded': 40, 'with_extra_data': 15, 'cycles_on': 10, 'hostile_constants': 200,
+              'files_opened_seen': 150, 'workbook_changed_on_disk_after_compile': 10, 'real_book_cases': 2,
+              'real_value_compares': 250, 'directed:big_model_saves': 15},
     'thorough': {'round_trips': 3000, 'site:process': 150, 'site:thread': 500, 'cycles_on': 500,
                  'hostile_constants': 8000},
 }
